@@ -90,7 +90,7 @@ Limited == {"timeout", "lim_peek", "lim_slow"}      \* the call of these kinds i
 \* mw.message): Module:Obj obtains an object from a constructor and reports the state of its writable fields ("init" =
 \* as a fresh context hands it out); the writer kinds (ow_) then write them ("set"), the reader kinds (or_) only read.
 \* The object a request NAMES (ObjKey): the same title reached through different constructors is one key (the main
-\* namespace has no subpages: the base page of T/sub is T/sub itself, another title than T).
+\* namespace has no subpages: the base page of T/sub is T/sub itself - the title that T:subPageTitle("sub") names too).
 \*   tnew  mw.title.new(T)            tmake mw.title.makeTitle(0, T)     tbase mw.title.new(T .. "/sub").basePageTitle
 \*   tcur  mw.title.getCurrentTitle() tsub  mw.title.new(T):subPageTitle("sub")
 \*   lnew  mw.language.new("en")      lcont mw.language.getContentLanguage()
@@ -98,9 +98,9 @@ Limited == {"timeout", "lim_peek", "lim_slow"}      \* the call of these kinds i
 ObjW == {"ow_tnew", "ow_tmake", "ow_tbase", "ow_tcur", "ow_tsub", "ow_lnew", "ow_lcont", "ow_html", "ow_msg"}
 ObjR == {"or_tnew", "or_tmake", "or_tbase", "or_tcur", "or_tsub", "or_lnew", "or_lcont", "or_html", "or_msg"}
 ObjKinds == ObjW \cup ObjR
-ObjKeys == {"T", "B", "C", "S", "L", "LC", "H", "M"}
-ObjKey(k) == CASE k \in {"ow_tnew", "or_tnew", "ow_tmake", "or_tmake"} -> "T" [] k \in {"ow_tbase", "or_tbase"} -> "B"
-               [] k \in {"ow_tcur", "or_tcur"} -> "C" [] k \in {"ow_tsub", "or_tsub"} -> "S"
+ObjKeys == {"T", "C", "S", "L", "LC", "H", "M"}
+ObjKey(k) == CASE k \in {"ow_tnew", "or_tnew", "ow_tmake", "or_tmake"} -> "T"
+               [] k \in {"ow_tcur", "or_tcur"} -> "C" [] k \in {"ow_tsub", "or_tsub", "ow_tbase", "or_tbase"} -> "S"
                [] k \in {"ow_lnew", "or_lnew"} -> "L" [] k \in {"ow_lcont", "or_lcont"} -> "LC"
                [] k \in {"ow_html", "or_html"} -> "H" [] k \in {"ow_msg", "or_msg"} -> "M"
 \* the object handed out for this key is one and the same for the whole life of the Lua runtime
